@@ -40,7 +40,10 @@ pub fn grammar(_args: &[String]) -> anyhow::Result<()> {
             // no host of the grammar: malformed, so refused (and certainly no panic)
             kind == "refuse"
         } else {
-            kind == e["kind"].as_str().unwrap_or("") && (!e["ok"].as_bool().unwrap_or(false) || (host == e["host"].as_str().unwrap_or("") && port == e["port"].as_i64().unwrap_or(-1)))
+            // a kind ending in '?' may also be refused
+            let ek = e["kind"].as_str().unwrap_or("");
+            (ek.ends_with('?') && kind == "refuse")
+                || (kind == ek.trim_end_matches('?') && (!e["ok"].as_bool().unwrap_or(false) || (host == e["host"].as_str().unwrap_or("") && port == e["port"].as_i64().unwrap_or(-1))))
         };
         if !ok {
             bad += 1;
